@@ -90,9 +90,7 @@ static void c06_gen_play_op(struct c06_op *op, int allow_heavy)
 		case XMP_PLAYER_MIX: op->b = vrng_range(-100, 100); break;
 		case XMP_PLAYER_INTERP: op->b = vrng_range(0, 2); break;
 		case XMP_PLAYER_DSP: op->b = vrng_range(0, 1); break;
-		/* without XMP_FLAGS_A500: switching a non-Amiga module to a MOD player mode with the Paula mixer
-		 * enabled dereferences the unallocated paula state (reported; not a C06 matter) */
-		case XMP_PLAYER_CFLAGS: op->b = vrng_range(0, 7); break;
+		case XMP_PLAYER_CFLAGS: op->b = vrng_range(0, 15); break;
 		case XMP_PLAYER_VOLUME: case XMP_PLAYER_SMIX_VOLUME: op->b = vrng_range(0, 200); break;
 		default: op->b = vrng_range(0, 10); break;
 		}
@@ -136,7 +134,7 @@ static void c06_gen_history(struct c06_script *s, int nops, int nmods)
 			static const int parms[] = { XMP_PLAYER_FLAGS, XMP_PLAYER_SMPCTL, XMP_PLAYER_DEFPAN, XMP_PLAYER_VOICES };
 			op->kind = OP_SETPLAYER; op->a = parms[vrng_below(4)];
 			switch (op->a) {
-			case XMP_PLAYER_FLAGS: op->b = vrng_range(0, 7); break;
+			case XMP_PLAYER_FLAGS: op->b = vrng_range(0, 15); break;
 			case XMP_PLAYER_SMPCTL: op->b = vrng_range(0, 1); break;
 			case XMP_PLAYER_DEFPAN: op->b = vrng_range(0, 100); break;
 			default: op->b = vrng_range(1, 200); break;
